@@ -76,6 +76,28 @@ def fingerprint(fnode) -> str:
     return hashlib.sha1(ast.dump(n, include_attributes=False).encode()).hexdigest()[:16]
 
 
+def is_peek(fnode) -> bool:
+    """``f(stream)``: reads one byte and steps back over it (``read(1)`` ... ``seek(-1, 1)``); nothing else is done with
+    the stream.  The contract itself (position restored on every path that read a byte, value of the byte returned) is a
+    rule of C01, this only recognises the role."""
+    a = fnode.args
+    if len(a.args) != 1 or a.vararg or a.kwarg or a.kwonlyargs:
+        return False
+    s = a.args[0].arg
+    calls = [c for c in ast.walk(fnode) if isinstance(c, ast.Call) and isinstance(c.func, ast.Attribute)
+             and isinstance(c.func.value, ast.Name) and c.func.value.id == s]
+    kinds = sorted(c.func.attr for c in calls)
+    if kinds != ['read', 'seek']:
+        return False
+    rd = [c for c in calls if c.func.attr == 'read'][0]
+    return len(rd.args) == 1 and isinstance(rd.args[0], ast.Constant) and rd.args[0].value == 1
+
+
+# functions the rules know by role: a moved / renamed / re-worded definition that is imported back under the old name and
+# plays the role is the function
+ROLES = {'pdu:_next_type': is_peek}
+
+
 def functions_of(trees: Dict[str, ast.Module]) -> Dict[str, Tuple[str, str, ast.AST, ast.AST]]:
     """{key: (module, class or '', def node, container node)} for module-level functions and methods"""
     out = {}
@@ -119,6 +141,33 @@ def undo_renames(trees: Dict[str, ast.Module]) -> Dict[str, str]:
             continue
         renames.append((cands[0], k))
     done: Dict[str, str] = {}
+    # moved *and* renamed, imported back under the old name: ``from .newmod import new_name as old_name``
+    for k in missing:
+        mod, qual = k.split(':', 1)
+        if '.' in qual or mod not in trees:
+            continue
+        for st in trees[mod].body:
+            if isinstance(st, ast.ImportFrom) and st.level == 1 and st.module in trees:
+                for a in st.names:
+                    if a.asname == qual and a.name != qual:
+                        cand = '%s:%s' % (st.module, a.name)
+                        role = ROLES.get(k)
+                        if cand in new and (fp_new.get(cand) == FINGERPRINTS[k] or (role and role(have[cand][2]))) \
+                                and defined.get(a.name, 0) == 1 and defined.get(qual, 0) == 0:
+                            node = have[cand][2]
+                            old_new = a.name
+                            node.name = qual
+                            for m2, tree in trees.items():
+                                for x in ast.walk(tree):
+                                    if isinstance(x, ast.Name) and x.id == old_new and m2 == st.module:
+                                        x.id = qual
+                                    elif isinstance(x, ast.Attribute) and x.attr == old_new:
+                                        x.attr = qual
+                                    elif isinstance(x, ast.alias) and x.name == old_new:
+                                        x.name = qual
+                                        if x.asname == qual:
+                                            x.asname = None
+                            done[cand] = '%s:%s' % (st.module, qual)
     for new_key, old_key in renames:
         mod, cls, node, _cont = have[new_key]
         new_name = node.name
@@ -138,6 +187,43 @@ def undo_renames(trees: Dict[str, ast.Module]) -> Dict[str, str]:
                     x.value = old_name       # getattr(self, 'name') / table of method names
         done[new_key] = old_key
     return done
+
+
+def specialise_mixins(trees: Dict[str, ast.Module]) -> int:
+    """Methods a class inherits from a *new* base class (a mix-in that is not in the inventory) are copied into the class.
+
+    The rules know the classes of the inventory and read their methods; a clean-up may hoist a method that several of them
+    share into a new common base, driven by class attributes each subclass sets (``fields``, ``format``).  Copying the
+    inherited definition into each inheriting class (what the MRO does at run time) lets the later passes fold those class
+    attributes per class.  Not done for methods that use ``super()`` or for names an earlier base of the class defines."""
+    from .oracles.inventory import CLASSES
+    n = 0
+    for mod, tree in trees.items():
+        defs = {st.name: st for st in tree.body if isinstance(st, ast.ClassDef)}
+        for st in tree.body:
+            if not isinstance(st, ast.ClassDef):
+                continue
+            own = {x.name for x in st.body if isinstance(x, (ast.FunctionDef, ast.AsyncFunctionDef))}
+            own |= {t.id for x in st.body if isinstance(x, ast.Assign) for t in x.targets if isinstance(t, ast.Name)}
+            seen_from_bases = set()
+            for b in st.bases:
+                if not (isinstance(b, ast.Name) and b.id in defs and defs[b.id] is not st):
+                    # an unknown base may define anything: names after it are not ours to copy
+                    if not (isinstance(b, ast.Name) and b.id == 'object'):
+                        break
+                    continue
+                base = defs[b.id]
+                is_new = '%s:%s' % (mod, base.name) not in CLASSES
+                for x in base.body:
+                    if isinstance(x, (ast.FunctionDef, ast.AsyncFunctionDef)):
+                        if is_new and x.name not in own and x.name not in seen_from_bases and not any(
+                                isinstance(y, ast.Name) and y.id == 'super' for y in ast.walk(x)) \
+                                and not (x.name.startswith('__') and x.name.endswith('__')):
+                            st.body.append(copy.deepcopy(x))
+                            own.add(x.name)
+                            n += 1
+                        seen_from_bases.add(x.name)
+    return n
 
 
 def canonical_imports(trees: Dict[str, ast.Module], pkg: str = 'pynetdicom2') -> int:
